@@ -110,6 +110,39 @@ def shapes():
         'dmarc-long-rua': (DnsRecordTxtValueDmarc, lambda n: b'v=DMARC1; p=none; rua=' + b','.join(b'mailto:a%d@example.com' % i for i in range(n))),
         'x509-chain-huge-count-no-data': (SshX509CertificateChain, lambda n: b'\x00\x00\x00\x0ex509v3-ssh-rsa' + b'\xff\xff\xff\xff' + b'\x00' * n),
     }
+    # extensions whose own length is small while an inner length field spans the rest of the block: an extension parser that looks
+    # beyond its extension would do work proportional to the block for every one of them
+    def overlapping(ext_type, payload):
+        def build(n):
+            one = ext_type.to_bytes(2, 'big') + len(payload(0)).to_bytes(2, 'big')
+            k = max(1, n)
+            total = k * (len(one) + len(payload(0)))
+            body = b''.join(one + payload(total // 2) for _ in range(k))
+            return len(body).to_bytes(2, 'big') + body
+        return build
+    res['extensions-overlapping-server-name'] = (TlsExtensionsClient, overlapping(0, lambda ll: b'\x80\x80\x00' + (ll % 65536).to_bytes(2, 'big')))
+    for t, nm in ((10, 'groups'), (13, 'signature-algorithms'), (16, 'alpn'), (51, 'key-share')):
+        res['extensions-overlapping-%s' % nm] = (TlsExtensionsClient, overlapping(t, lambda ll: (ll % 65536 & 0xfffe).to_bytes(2, 'big')))
+    # a certificate in the place of the signing key of a certificate, n / 8 times over
+    from cryptoparser.ssh.key import SshHostPublicKeyVariant, SshHostCertificateV01EDDSA
+    certs = [v for c, vs in sweep.library_vectors().items() if c is SshHostCertificateV01EDDSA for v in vs]
+    if certs:
+        cert = certs[0]
+        spots = [i for i, _b in sweep.self_nested(cert, 1, limit=64)]
+
+        def nested(n, cert=cert, spots=spots):
+            best = None
+            for i in spots:      # the spot that holds the signing key: the one whose shallow nesting is accepted (or the last)
+                for j, b in sweep.self_nested(cert, max(1, n // 8), limit=64):
+                    if j == i:
+                        best = b
+                        try:
+                            SshHostPublicKeyVariant.parse_immutable([x for k, x in sweep.self_nested(cert, 2, limit=64) if k == i][0])
+                            return b
+                        except Exception:  # pylint: disable=broad-except
+                            pass
+            return best or cert
+        res['ssh-certificate-nested-in-signing-key'] = (SshHostPublicKeyVariant, nested)
     return res
 
 
